@@ -140,6 +140,9 @@ def run(rep, F, ctx):
                           '<sys::fs::stdfs::entry::StdfsEntry as %s>::follow' % ENTRY_TR, lambda t: True,
                           [(r'MemfsEntry', 'E'), (r'StdfsEntry', 'E')], 'MemfsEntry::follow and StdfsEntry::follow make the same calls on the same fields')
     rep.rule('SIBLING', 'method pairs declared mirrors have identical call skeletons (callees and structural argument descriptions) after backend renaming')
+    import siteguard as _sg
+    _t = engine.load_table('site_guards.json')
+    _sg.site_guard(rep, F, cg, _t, _t['_groups']['C10'])
     return engine.finish(
         rep, 'other', EXPLANATION,
         assumptions=['std::fs::read_link fails for a non-link (OS contract) — used by Stdfs::readlink'],
